@@ -137,6 +137,109 @@ def fresh_names(fn, owned_params):
     return (fresh - other) | set(owned_params)
 
 
+HANDLE_ATTRS = {"fh", "fileobj", "fp", "file", "stream", "data_file", "backing_file", "raw", "buf", "buffer"}
+OWNED_CTORS = FRESH_CTORS | {"dict", "list", "set", "defaultdict", "collections.defaultdict", "OrderedDict", "collections.OrderedDict", "array", "array.array"}
+DERIVING_METHODS = {"setdefault", "get", "copy"}
+
+
+def owned_locals(fn):
+    """locals of fn all of whose bindings create a fresh in-memory container (display, comprehension, bytearray()/dict()/...) or
+    derive one from an owned local (alias, element, .setdefault/.get/.copy of it); parameters are never owned"""
+    binds = {}
+    params = {a.arg for a in fn.args.posonlyargs + fn.args.args + fn.args.kwonlyargs} | ({fn.args.vararg.arg} if fn.args.vararg else set()) | ({fn.args.kwarg.arg} if fn.args.kwarg else set())
+    for n in ast.walk(fn):
+        if isinstance(n, ast.Assign):
+            for t in n.targets:
+                if isinstance(t, ast.Name):
+                    binds.setdefault(t.id, []).append(n.value)
+                else:
+                    for x in ast.walk(t):
+                        if isinstance(x, ast.Name) and isinstance(x.ctx, ast.Store):
+                            binds.setdefault(x.id, []).append(None)
+        elif isinstance(n, ast.AnnAssign) and isinstance(n.target, ast.Name):
+            binds.setdefault(n.target.id, []).append(n.value)
+        elif isinstance(n, ast.NamedExpr):
+            binds.setdefault(n.target.id, []).append(n.value)
+        elif isinstance(n, (ast.For, ast.comprehension)):
+            for x in ast.walk(n.target):
+                if isinstance(x, ast.Name):
+                    binds.setdefault(x.id, []).append(("elements", n.iter))  # elements of an owned container are derived from it
+        elif isinstance(n, ast.withitem) and n.optional_vars is not None:
+            for x in ast.walk(n.optional_vars):
+                if isinstance(x, ast.Name):
+                    binds.setdefault(x.id, []).append(None)
+    owned = set()
+
+    def root_owned(e):
+        while isinstance(e, (ast.Subscript, ast.Attribute)):
+            e = e.value
+        return isinstance(e, ast.Name) and e.id in owned
+
+    def fresh(v):
+        if v is None:
+            return False
+        if isinstance(v, tuple):
+            it = v[1]
+            if isinstance(it, ast.Call) and isinstance(it.func, ast.Attribute) and it.func.attr in ("values", "items", "keys") and not it.args:
+                it = it.func.value
+            return isinstance(it, (ast.Name, ast.Subscript)) and root_owned(it)
+        if isinstance(v, (ast.Dict, ast.List, ast.Set, ast.ListComp, ast.DictComp, ast.SetComp)):
+            return True
+        if isinstance(v, ast.Call):
+            if dotted(v.func) in OWNED_CTORS:
+                return True
+            if isinstance(v.func, ast.Attribute) and v.func.attr in DERIVING_METHODS and root_owned(v.func.value):
+                return True
+            return False
+        if isinstance(v, (ast.Name, ast.Subscript)):
+            return root_owned(v)
+        return False
+
+    # greatest fixpoint (node = store; node = node[part] is owned when store is): start from every non-parameter local, drop a name
+    # as soon as one of its bindings is not fresh / derived from names still in the set
+    owned |= {nm for nm, vals in binds.items() if nm not in params and vals}
+    changed = True
+    while changed:
+        changed = False
+        for nm in sorted(owned):
+            if not all(fresh(v) for v in binds[nm]):
+                owned.discard(nm)
+                changed = True
+    return owned
+
+
+def memory_stores(fn):
+    """(node, container expression) of every item/slice store, augmented store and deletion belonging to fn"""
+    out = []
+    for n in ast.walk(fn):
+        tg = n.targets if isinstance(n, (ast.Assign, ast.Delete)) else ([n.target] if isinstance(n, (ast.AugAssign, ast.AnnAssign)) else [])
+        for t in tg:
+            for y in ast.walk(t):
+                if isinstance(y, ast.Subscript) and isinstance(y.ctx, (ast.Store, ast.Del)):
+                    out.append((n, y.value))
+    return sorted(out, key=lambda x: (x[0].lineno, x[0].col_offset))
+
+
+def container_ok(e, owned):
+    """the stored-into container is the function's own fresh object or parser-object state (an attribute that is not a handle)"""
+    if isinstance(e, ast.Name):
+        return e.id in owned, f"local {e.id} " + ("is a fresh in-memory container of this function" if e.id in owned else "is not bound to a fresh in-memory container on every path (it may alias a caller's buffer or handle)")
+    if isinstance(e, ast.Subscript):
+        return container_ok(e.value, owned)
+    if isinstance(e, ast.Attribute):
+        chain, x = [], e
+        while isinstance(x, ast.Attribute):
+            chain.append(x.attr)
+            x = x.value
+        bad = [a for a in chain if a in HANDLE_ATTRS]
+        if bad:
+            return False, f"store into memory reached through the handle attribute .{bad[0]}"
+        if isinstance(x, (ast.Name, ast.Subscript)):
+            return True, f"state of a parser object (.{chain[0]})"
+        return False, f"store into an attribute of a computed object {ast.unparse(x)[:40]}"
+    return False, f"store into the result of {ast.unparse(e)[:60]} (not an owned container)"
+
+
 def analyse(repo, owned_params, allowed_writer, passthrough):
     """returns (sites, module infos).  owned_params: {(relpath, func): {param,...}} ; allowed_writer: (relpath, func);
     passthrough: {(relpath, func)} functions that forward *args/**kwargs to an opener (mode is the caller's)."""
@@ -152,9 +255,15 @@ def analyse(repo, owned_params, allowed_writer, passthrough):
     for rel in sorted(files):
         src = open(os.path.join(repo, rel)).read()
         tree = ast.parse(src)
+        from . import alpha
+
+        alpha.restore_module(tree, rel)  # renamed helpers / locals back to the names the rules below refer to (alpha-conversion, pyvc/alpha.py)
         mi = ModuleInfo(rel, tree)
         infos[rel] = mi
         units = functions_of(tree) + [("<module>", tree)]
+        for q_, f_ in units:
+            if q_ != "<module>":
+                alpha.restore(f_, rel, q_)
         local_funcs = {q.split(".")[-1] for q, _ in units}
         for qual, fn in units:
             fresh = fresh_names(fn, owned_params.get((rel, qual), set())) if qual != "<module>" else set()
@@ -172,6 +281,11 @@ def analyse(repo, owned_params, allowed_writer, passthrough):
                 counters[kind] = i + 1
                 sites.append(Site(rel, qual, kind, i, node.lineno, ast.unparse(node)[:120], ok, why))
 
+            if qual != "<module>":
+                own = owned_locals(fn) | fresh
+                for st_node, cont in memory_stores(fn):
+                    ok, why = container_ok(cont, own)
+                    add("store.memory", st_node, ok, why)
             for c in calls:
                 fname = dotted(c.func)
                 attr = c.func.attr if isinstance(c.func, ast.Attribute) else (c.func.id if isinstance(c.func, ast.Name) else None)
